@@ -209,6 +209,9 @@ func (f *Failover) Get(
 		value = val
 	} else if unexpectedBackendError != nil {
 		return nil, unexpectedBackendError // Cache backend failed with unexpected error.
+	} else {
+		// Keeping overly stale value (if any) to serve in case of update failure.
+		value = val
 	}
 
 	// Check if update failed recently.
@@ -276,7 +279,7 @@ func (f *Failover) valueFromError(err error) (interface{}, bool, error) {
 			return errExpired.Value(), true, nil
 		}
 
-		return nil, false, nil
+		return errExpired.Value(), false, nil
 	}
 
 	if errors.Is(err, ErrNotFound) {
